@@ -705,6 +705,9 @@ func batcherMonitor(lines, outs []string, m *Model) []Violation {
 	if !kv["once"] {
 		vs = append(vs, Violation{"C04", "per partition key, dispatched ++ open records differ from the accepted input records (lost, duplicated or reordered) (" + v + ")", ""})
 		vs = append(vs, Violation{"C05", "record order per partition key is not the delivery order (" + v + ")", ""})
+		if strings.HasPrefix(strings.Fields(lines[0])[2], "kinesis") {
+			vs = append(vs, Violation{"C15", "a record that did not fit the current Kinesis batch was lost or duplicated instead of opening a new batch (" + v + ")", ""})
+		}
 	}
 	if !kv["txns"] {
 		vs = append(vs, Violation{"C04", "per-transaction counts reported by batches do not add up to the records plus counted drops (" + v + ")", ""})
